@@ -14,6 +14,7 @@ import (
 	"github.com/opsidian/parsley/parsley"
 	"github.com/opsidian/parsley/text"
 
+	"verifharness/internal/gram"
 	"verifharness/internal/run"
 )
 
@@ -287,7 +288,7 @@ func jsonParsley(p parsley.Parser, doc []byte, before []int) (got interface{}, e
 	for i, n := range before {
 		fs.AddFile(text.NewFile(fmt.Sprintf("p%d", i), make([]byte, n)))
 	}
-	f := text.NewFile("f", doc)
+	f := gram.NewFileFrom("f", doc)
 	rd := placeFile(fs, f, len(doc)%2 == 1)
 	got, err = parsley.Evaluate(parsley.NewContext(fs, rd), p)
 	// the same File evaluated again (a second pass over one document): nothing may have changed
